@@ -164,6 +164,22 @@ def canIncrease (o : IncOpts) (i : IncIn) : Bool :=
   else if i.isTail ∧ o.eof ≠ .ignore then false
   else true
 
+/-- the order of the tests in `can_increase_nl()` that `canIncrease` transliterates (entries 3–12; the first two are the
+    `nl_squeeze_ifdef` block, which the model leaves out) -/
+def expectedCanIncReturns : List (String × List String) := [
+  ("rv", ["options::nl_squeeze_ifdef()", "pp_start->IsNotNullChunk() && (pp_start->GetParentType() == CT_PP_IF || pp_start->GetParentType() == CT_PP_ELSE) && (pp_start->GetLevel() > 0 || options::nl_squeeze_ifdef_top_level())"]),
+  ("rv", ["options::nl_squeeze_ifdef()", "next->Is(CT_PREPROC) && (next->GetParentType() == CT_PP_ELSE || next->GetParentType() == CT_PP_ENDIF) && (next->GetLevel() > 0 || options::nl_squeeze_ifdef_top_level())"]),
+  ("true", ["next->Is(CT_BRACE_CLOSE)", "options::nl_inside_namespace() > 0 && next->GetParentType() == CT_NAMESPACE"]),
+  ("true", ["next->Is(CT_BRACE_CLOSE)", "options::nl_inside_empty_func() > 0 && prev->Is(CT_BRACE_OPEN) && (next->GetParentType() == CT_FUNC_DEF || next->GetParentType() == CT_FUNC_CLASS_DEF)"]),
+  ("false", ["next->Is(CT_BRACE_CLOSE)", "options::eat_blanks_before_close_brace()"]),
+  ("true", ["prev->Is(CT_BRACE_CLOSE)", "options::nl_before_namespace() && prev->GetParentType() == CT_NAMESPACE"]),
+  ("true", ["prev->Is(CT_BRACE_OPEN)", "options::nl_inside_namespace() > 0 && prev->GetParentType() == CT_NAMESPACE"]),
+  ("true", ["prev->Is(CT_BRACE_OPEN)", "options::nl_inside_empty_func() > 0 && next->Is(CT_BRACE_CLOSE) && (prev->GetParentType() == CT_FUNC_DEF || prev->GetParentType() == CT_FUNC_CLASS_DEF)"]),
+  ("false", ["prev->Is(CT_BRACE_OPEN)", "options::eat_blanks_after_open_brace()"]),
+  ("false", ["pcmt->IsNullChunk() && (options::nl_start_of_file() != IARF_IGNORE)"]),
+  ("false", ["next->IsNullChunk() && (options::nl_end_of_file() != IARF_IGNORE)"]),
+  ("true", []) ]
+
 /-! ## `newlines_cleanup_dup()`: two adjacent newline chunks are merged into one holding the larger count -/
 
 def cleanupDup : List Nat → List Nat
